@@ -373,8 +373,8 @@ def _jsonable(x):
 # concrete replay context: the same scenario function, on floats
 
 
-class ReplayInvalid(Exception):
-    pass
+class ReplayInvalid(BaseException):
+    """the float witness does not satisfy a harness assumption (BaseException: must not be mistaken for an exception of the code under test)"""
 
 
 class ConcreteCtx:
